@@ -2,6 +2,7 @@
 //   libcif heap (objcopy-redirected malloc family), SQLite heap (sqlite3_mem_methods), simulated disk (sqlite3_vfs),
 //   page-cache / lookaside knobs (auto-extension), byte streams (fopencookie), process environment.
 #include "sim.hpp"
+#include <execinfo.h>
 #include <sqlite3.h>
 #include <cerrno>
 #include <clocale>
@@ -43,7 +44,7 @@ static inline bool lalloc_should_fail() {
     if (!g_lalloc.armed) return false;
     ++g_lalloc.count;
     ++g_stats.events;
-    if (g_lalloc.fail_at > 0 && g_lalloc.count == g_lalloc.fail_at) { g_lalloc.fired = true; return true; }
+    if (g_lalloc.fail_at > 0 && g_lalloc.count == g_lalloc.fail_at) { g_lalloc.fired = true; g_lalloc.n_fire_ra = backtrace(g_lalloc.fire_ra, 24); snprintf(g_lalloc.fire_exec_sql, sizeof g_lalloc.fire_exec_sql, "%s", g_exec_sql ? g_exec_sql : ""); return true; }
     return false;
 }
 extern "C" void *cifsim_malloc(size_t n) {
@@ -95,6 +96,39 @@ static std::string symbolize(void *addr) {
     if (sl != std::string::npos) loc = loc.substr(sl + 1);
     return fn + "@" + loc;
 }
+const char *g_exec_sql = NULL;
+extern "C" int cifsim_sqlite3_exec(sqlite3 *db, const char *sql, int (*cb)(void *, int, char **, char **), void *arg, char **err) {
+    const char *prev = g_exec_sql; g_exec_sql = sql;
+    int rc = sqlite3_exec(db, sql, cb, arg, err);
+    g_exec_sql = prev;
+    return rc;
+}
+void TxMonitor::check(const std::string &prop, const char *fn, int rc, sqlite3 *db, const char *which, bool sq, long k) {
+    if (!db || sqlite3_get_autocommit(db) != 0) return;
+    AllocSeam &A = sq ? g_salloc : g_lalloc;
+    std::string site = A.describe_fire();
+    std::string detail = strprintf("%s returned %s after %s allocation #%ld failed and left a transaction open on %s although no iterator is open [failed at %s]", fn, rc_name(rc), sq ? "storage-engine" : "library", k, which, site.c_str());
+    if (A.fire_exec_sql[0]) {
+        // the library's own transaction-control statement could not be compiled
+        g_stats.inc("c17.tx_control_oom");
+        ev("%s: transaction left open because \"%s\" failed for lack of memory; rolled back by the harness", fn, A.fire_exec_sql);
+        if (!deferred) deferred.reset(new Violation(prop + ".autocommit", std::string("tx_control_oom:") + A.fire_exec_sql, detail + strprintf(" [the failed allocation was inside the library's own \"%s\"]", A.fire_exec_sql), -1));
+        int q = sqlite3_exec(db, "rollback", NULL, NULL, NULL); (void) q;
+        return;
+    }
+    throw Violation(prop + ".autocommit", fn, detail, -1);
+}
+std::string AllocSeam::describe_fire() {
+    // where the last injected failure happened: the libcif frames of its call chain, innermost first
+    std::string out; int n = 0;
+    for (int i = 0; i < n_fire_ra && n < 4; ++i) {
+        std::string s = symbolize((char *) fire_ra[i] - 1);
+        if (s.find(".c:") == std::string::npos) continue;
+        if (n++) out += "<-";
+        out += s;
+    }
+    return out.empty() ? std::string("?") : out;
+}
 std::string AllocSeam::describe_live(size_t max) {
     // for each live block: the outermost libcif frame of its allocation chain (the API-level function), plus the innermost
     std::vector<std::string> sites;
@@ -126,7 +160,7 @@ static inline bool salloc_should_fail() {
     if (!g_salloc.armed) return false;
     ++g_salloc.count;
     ++g_stats.events;
-    if (g_salloc.fail_at > 0 && g_salloc.count == g_salloc.fail_at) { g_salloc.fired = true; return true; }
+    if (g_salloc.fail_at > 0 && g_salloc.count == g_salloc.fail_at) { g_salloc.fired = true; g_salloc.n_fire_ra = backtrace(g_salloc.fire_ra, 24); snprintf(g_salloc.fire_exec_sql, sizeof g_salloc.fire_exec_sql, "%s", g_exec_sql ? g_exec_sql : ""); return true; }
     return false;
 }
 static void *sq_malloc(int n) {
